@@ -98,7 +98,9 @@ def timeout_cases(rng, n):
                       "managed": rng.random() < 0.5, "p_blocked_pull": 1.0, "cb_after_start": True,
                       "policy": "pull_first" if rng.random() < 0.7 else None,
                       "sleep_before_first_pull": 2.4 if (tmo and i % 3 == 0) else None,
-                      "nap_before_pulls": [2, 3] if (tmo and i % 3 == 1) else None})
+                      "nap_before_pulls": [2, 3] if (tmo and i % 3 == 1) else None,
+                      # every other nap case keeps the watched job pending and completes the others
+                      "avoid_control": bool(tmo and i % 3 == 1 and i % 2 == 1)})
     return cases
 
 
@@ -232,6 +234,12 @@ def compare(run, model):
         if robs != m["obs"]:
             late = (robs == [] and m["obs"] != [])
             return {"kind": "late" if late else "obs", "index": k, "event": ev, "real": robs, "model": m["obs"]}
+        # the counter behind the early-exit warning: number of values handed to the consumer (while the run is alive)
+        msnap, consumed = m["snap"][:9], (m["snap"][9] if len(m["snap"]) > 9 else None)
+        if consumed is not None and rs.get("running") and "nb_consumed" in rs and rs["nb_consumed"] != consumed:
+            return {"kind": "snap", "index": k, "event": ev, "real": rs["nb_consumed"], "model": consumed,
+                    "fields": "_nb_consumed (values handed to the consumer so far)"}
+        m = dict(m, snap=msnap)
         if real_snap(rs) != m["snap"]:
             return {"kind": "snap", "index": k, "event": ev, "real": real_snap(rs), "model": m["snap"],
                     "fields": "taken n_disp n_comp njobs iterating aborting nready running exception"}
@@ -506,7 +514,7 @@ def correspondence(ctx, profile, n_cases, extra_cases=()):
 
 def replay_options(case):
     """the options of a case that change what the implementation is asked to do (not how the schedule is drawn)"""
-    return {k: case[k] for k in ("managed", "warn_error", "fresh_object_per_call", "sized_inputs", "base_fail") if k in case}
+    return {k: case[k] for k in ("managed", "warn_error", "fresh_object_per_call", "sized_inputs", "base_fail", "avoid_control") if k in case}
 
 
 def script_of(r):
@@ -571,6 +579,15 @@ def standard_run(ctx, prop, profile):
     if profile == "c16":
         # generators with a `timeout`: each wait of the consumer is bounded separately (naps between the requests)
         extra = [c for c in timeout_cases(ctx.rng, 12 if quick else 40) if c.get("sleep_before_first_pull") or c.get("nap_before_pulls")]
+    if profile in ("c16", "c04"):
+        # fixed shapes: unordered results with a time-out, the consumer asks first, the job the retrieval loop watches for
+        # its time-out stays pending while the others complete, with naps longer than the time-out between the requests
+        for k, (nj, pre) in enumerate(((2, "all"), (3, 2), (2, 3))):
+            extra.append({"id": "stale%d" % k, "seed": 1000 + k,
+                          "calls": [["call", nj, pre, "unordered", 6, None, [], 2.0], ["call", nj, 2, "unordered", 3, None, [], None]],
+                          "max_events": 80, "stall_after": None, "p_close": 0.0, "p_call2": 0.0, "bsizes": [1], "managed": k == 1,
+                          "p_blocked_pull": 1.0, "cb_after_start": True, "policy": "pull_first", "nap_before_pulls": [2, 3],
+                          "avoid_control": True})
     res = correspondence(ctx, profile, n, extra)
     mine = [(c, r, o) for c, r, o in res["oracle_failures"] if o[0] in (prop, "ALL")]
     others = [(c, r, o) for c, r, o in res["oracle_failures"] if o[0] not in (prop, "ALL")]
